@@ -26,7 +26,7 @@ CHECKS = {
  "C02": dict(
     level="exploration", design="2/C02",
     technique="runtime monitoring with crash attribution: catch_unwind + child processes whose signal handler names the (case, phase) that aborted; logical-step hang oracles (reads past EOF, polls without wake-up); Miri/ASan layers",
-    text="The quantifier's input families are executed literally: every <=2-byte tail and a 1M-sample (thorough: all 2^24) of 3-byte tails after a valid header, the full tag x length x fill x truncation grid (also straight into IppValue::parse), all with-language inner-length pairs, every token sequence up to length 4 (thorough 5) over the 16-token alphabet, seeded grammar-aware mutations, and 14 structural bomb families up to 1 MiB with each phase (parse, display, debug, encode, traverse, clone+eq, drop) in its own process. Both parsers run on every input; any panic, abort, stack overflow, read loop past EOF or unproductive poll loop is a violation carrying the input. The recorded stack overflows of post-parse recursion on deeply nested collections are listed known findings (exact family+phase signatures); anything else still fails the check.",
+    text="The quantifier's input families are executed literally: every <=2-byte tail and a 1M-sample (thorough: all 2^24) of 3-byte tails after a valid header, the full tag x length x fill x truncation grid (also straight into IppValue::parse), all with-language inner-length pairs, every token sequence up to length 4 (thorough 5) over the 16-token alphabet, seeded grammar-aware mutations, every tag with every 1-byte body and selected 2-byte bodies, every tag with periodic self-describing bodies (a short word such as 00 00 00 7f repeated to 12 B..64 KiB, run on a 2 MiB stack), and 14 structural bomb families up to 1 MiB with each phase (parse, display, debug, encode, traverse, clone+eq, drop) in its own process. Both parsers run on every input; any panic, abort, stack overflow, read loop past EOF or unproductive poll loop is a violation carrying the input. The recorded stack overflows of post-parse recursion on deeply nested collections are listed known findings (exact family+phase signatures); anything else still fails the check.",
     note="8 MiB case-thread stack; hang decided on logical steps, wall clock only as watchdog (inconclusive). Inputs not executed are not covered."),
  "C04": dict(
     level="exploration", design="2/C04",
@@ -41,7 +41,7 @@ CHECKS = {
  "C06": dict(
     level="exploration", design="2/C06",
     technique="runtime monitor: invariant on the scripted source's read log (bytes delivered at return == offset of end-of-attributes tag + 1) plus differential result check across fragmentations",
-    text="Four entry points (blocking/async x parse/parse_parts) are run per (message, payload, schedule). The scripted source honours the full requested size in 'whole' mode, so any layer that reads ahead over-consumes and is seen in the log; other schedules go down to 1-byte reads, Interrupted before every read (blocking), Pending with immediate/deferred wake (async) and all 2^(n-1) compositions for short messages. Checked: position at return, the reader from parse_parts yields exactly the rest, payload byte-identical (up to MiBs, incl. payloads that are themselves IPP messages), result equal to the unfragmented parse.",
+    text="Four entry points (blocking/async x parse/parse_parts) are run per (message, payload, schedule). The scripted source honours the full requested size in 'whole' mode, so any layer that reads ahead over-consumes and is seen in the log; other schedules go down to 1-byte reads, Interrupted before every read (blocking), Pending with immediate/deferred wake (async) and all 2^(n-1) compositions for short messages. Checked: position at return, the reader from parse_parts yields exactly the rest, payload byte-identical (quick up to 2.3 MB i.e. beyond 2^20, thorough up to 17 MB i.e. beyond 2^24, incl. payloads that are themselves IPP messages); the hand-enumerated shapes with every boundary length (incl. 32767/32768) run as a deterministic prefix, result equal to the unfragmented parse.",
     note="End-tag offset computed by the reference decoder. Trusted: scripted source and log."),
  "C07": dict(
     level="fault_enumeration", design="2/C07",
@@ -56,18 +56,18 @@ CHECKS = {
  "C10": dict(
     level="exploration", design="2/C10",
     technique="runtime monitor: reference-model oracle (per-operation reference request) vs the built request, in memory and as decoded from its bytes by the reference decoder",
-    text="Random builder programs over the 10 operations (builders and operation structs), with repeated setters, arbitrary UTF-8 arguments, boundary job ids, 0/1/n requested attributes, G5 target URIs and G1 job attribute values, are executed against the library and compared with a reference request (registry operation code, version 1.1, positive request-id, exactly the expected attributes with the stated syntaxes in the right group, last-wins for extras, payload bytes); plus the raw constructors over every registered operation and status.",
+    text="Random builder programs over the 10 operations (builders and operation structs), with repeated setters, arbitrary UTF-8 arguments, boundary job ids, 0/1/n requested attributes, G5 target URIs and G1 job attribute values under a pool of 44 attribute names (job-template names, document/operation attribute names a library might special-case, the header attribute names, look-alikes) plus arbitrary strings, are executed against the library and compared with a reference request (registry operation code, version 1.1, positive request-id, exactly the expected attributes with the stated syntaxes in the right group, last-wins for extras, payload bytes); plus the raw constructors over every registered operation and status.",
     note="Reference canonical printer-uri comes from the harness's own URI splitter (C13's oracle)."),
  "C13": dict(
     level="exploration", design="2/C13",
     technique="runtime monitor: component oracle with taint markers over an exhaustive URI component grid plus seeded random URIs",
-    text="Targets are assembled from known components (138240-point grid over scheme x host form x port x user-info x path x query, plus random), user-info and query carry markers; the canonical printer-uri from the helper and from all 9 URI-taking constructors is split by an independent splitter and compared component-wise, the markers must not occur anywhere in the request bytes, and canonicalisation must be idempotent.",
+    text="Targets are assembled from known components (138240-point grid over scheme x host form x port x user-info x path x query, plus random), user-info and query carry markers; the canonical printer-uri from the helper and from all 9 URI-taking constructors is split by an independent splitter and compared component-wise, the markers must not occur anywhere in the request bytes, canonicalisation must be idempotent, and every judged call is preceded by two look-alike targets (authority case swapped; other credentials, port, query, scheme or path case) so that a result remembered from an earlier call shows. Hosts are compared ASCII-case-insensitively ('the same host').",
     note="Targets http::Uri refuses are counted and skipped."),
  "C14": dict(
     level="exploration", design="2/C14",
-    technique="runtime monitor at a cfg-guarded hook (verif_transport_url): component oracle over the C13 grid plus random URIs",
-    text="The private mapping the clients use is reached through the add-only hook and compared component-wise with the reference mapping (ipp->http, ipps->https, 631 when no port, explicit port kept, everything else unchanged, http/https untouched) over the full grid and random URIs. The port-less ipps -> 443 mapping is a listed known finding with an exact signature; any other discrepancy fails the check.",
-    note="Hook: --cfg ancwrd1_ipp_rs_verif. Socket-level confirmation for explicit-port targets is part of C11."),
+    technique="runtime monitor at a cfg-guarded hook (verif_transport_url): component oracle over the C13 grid plus random URIs with look-alike pre-calls (history independence); plus a live loopback peer observing request line and Host header of both clients",
+    text="The private mapping the clients use is reached through the add-only hook and compared component-wise with the reference mapping (ipp->http, ipps->https, 631 when no port, explicit port kept, everything else unchanged, http/https untouched) over the full grid and random URIs, each judged call preceded by two look-alike targets so that a mapping remembered from an earlier call shows. The second observation point is live: both clients send to explicit-port targets (ipp/http x three host spellings x four user-info forms x six path/query forms = 288 sends) and the loopback peer must see exactly one request on that port whose request target equals the target's path and query and whose single Host header equals host:port. The port-less ipps -> 443 mapping is a listed known finding with an exact signature; any other discrepancy fails the check.",
+    note="Hook: --cfg ancwrd1_ipp_rs_verif. Port-less targets cannot be observed live (port 631 is not bindable here); they are covered by the hook."),
 
  "C08": dict(
     level="exploration", design="2/C08",
@@ -77,12 +77,12 @@ CHECKS = {
  "C15": dict(
     level="exploration", design="2/C15",
     technique="runtime cost monitoring on deterministic step measures: counting global allocator (bytes, calls) and cachegrind instruction counts over doubling input families; incremental-ratio oracle",
-    text="19 doubling families (nesting with/without member names and with multi-valued members, set width, set of collections, attribute/group/member count in ascending, descending and shuffled name order, value/name length, invalid-UTF-8 names and values, four malformed floods), both parsers, sizes 2 KiB to 256 KiB (thorough 1 MiB) for the allocation measure and 4 KiB to 64 KiB (thorough 1 MiB) under cachegrind. For consecutive doublings the incremental ratio (c(4n)-c(2n))/(c(2n)-c(n)) must stay <= 2.6 (n log n passes, quadratic gives 4) and allocated bytes <= 256 KiB + 1024 n. Wall clock is never a verdict; a series stops at its first violating doubling so a quadratic tree is reported at KiB sizes within seconds.",
+    text="23 doubling families plus a hash-flood family (nesting with/without member names and with multi-valued members, set width with one tag, with eight alternating tags at top level and inside a collection member, and with distinct keyword strings, set of collections, one wide collection followed by many small ones, attribute/group/member count in ascending, descending and shuffled name order, value/name length, invalid-UTF-8 names and values, four malformed floods), both parsers, sizes 2 KiB to 256 KiB (thorough 1 MiB) for the allocation measure and 4 KiB to 64 KiB (thorough 1 MiB) under cachegrind. For consecutive doublings the incremental ratio (c(4n)-c(2n))/(c(2n)-c(n)) must stay <= 2.6 (n log n passes, quadratic gives 4) and allocated bytes <= 256 KiB + 1024 n. Wall clock is never a verdict; a series stops at its first violating doubling so a quadratic tree is reported at KiB sizes within seconds.",
     note="Instruction counts include process start-up and input generation (linear, cancelled by the incremental ratio). Only the families listed are covered."),
  "C16": dict(
     level="exploration", design="2/C16",
     technique="runtime monitor by complete enumeration of the finite code domains against registry tables embedded in the harness (exhaustive: true)",
-    text="All 65536 16-bit values go through StatusCode::from_u16, IppHeader::status_code, is_success and Operation::from_u16, all 256 bytes through the delimiter and value tag enums, -4..65535 through the five attribute enums, and the tag emitted for every value kind is compared with the registry. A registered code must give the variant the registry names for it, any other code 'unknown' or a symbol naming no registered code, success exactly for the RFC 8011 successful codes, and every variant must cast back to the integer it was decoded from. The domain is finite and enumerated completely on every run.",
+    text="All 65536 16-bit values go through StatusCode::from_u16, IppHeader::status_code, is_success and Operation::from_u16, all 256 bytes through the delimiter and value tag enums, -4..65535 through the five attribute enums, and the tag emitted for every value kind is compared with the registry. A registered code must give the variant the registry names for it, any other code 'unknown' or a symbol naming no registered code (a code missing from the harness's tables is unjudged unless its symbol is the registry's name for a different code, so that correct table extensions do not alarm), success exactly for the RFC 8011 successful codes, and every variant must cast back to the integer it was decoded from. The domain is finite and enumerated completely on every run.",
     note="Trusted: the registry tables typed in from RFC 8010/8011, PWG 5100.1 and the CUPS specification; identifier comparison is modulo case and punctuation with listed aliases."),
  "C17": dict(
     level="exploration", design="2/C17",
@@ -98,7 +98,7 @@ CHECKS = {
  "C20": dict(
     level="exploration", design="2/C20",
     technique="runtime monitor: differential round-trip oracle through serde_json with the serde feature compiled in (separate harness crate), mirror equality",
-    text="The harness builds ipp with the serde feature (which the repository's suite never compiles), serialises each generated message (payload attached) to JSON, deserialises it and compares header, groups, names and values with the mirror of what was serialised; the payload must read as empty afterwards. IppAttributes alone and every IppValue alone go through the same round trip. All 22 kinds, raw-octet values, nested collections (up to the carrier's nesting limit) and boundary lengths are covered by the shapes prefix and seeded random messages.",
+    text="The harness builds ipp with the serde feature (which the repository's suite never compiles), serialises each generated message (payload attached) to JSON and deserialises it through five serde_json carriers (to_string/from_str, to_vec/from_slice, to_writer/from_reader i.e. a non-borrowing deserialiser, to_value/from_value i.e. the tree form, to_string_pretty/from_str) and compares header, groups, names and values with the mirror of what was serialised; the payload must read as empty afterwards. IppAttributes alone and every IppValue alone go through the same round trip. All 22 kinds, raw-octet values, nested collections (up to the carrier's nesting limit) and boundary lengths are covered by the shapes prefix and seeded random messages.",
     note="JSON (serde_json) as the carrier; messages nested deeper than 20 collection levels are skipped because serde_json refuses deeper documents."),
 
  "C11": dict(
@@ -109,13 +109,13 @@ CHECKS = {
  "C12": dict(
     level="exploration", design="2/C12",
     technique="runtime monitoring of a complete configuration matrix against a loopback rustls peer with freshly generated CAs; oracle on send() outcome and on decrypted bytes seen by the peer application (exhaustive: true)",
-    text="The finite matrix {blocking, async} x {native-tls, rustls} x ignore flag {unset, false, true} x extra root {none, correct PEM, correct DER, unrelated} x server certificate {valid, wrong host, expired, self-signed, unknown CA} x a second, tiny Ed25519 root family and a leaf that expired seconds before the run = 504 cells is executed completely on every run (two harness builds, one per TLS backend, since the backends cannot be compiled together). A cell must accept exactly when the caller opted out or supplied the correct root for a valid leaf; in every rejected cell the peer application must not have received a single decrypted byte. Thorough repeats the matrix against TLS 1.2-only and 1.3-only peers.",
+    text="The finite matrix {blocking, async} x {native-tls, rustls} x ignore flag {unset, false, true} x extra root {none, correct PEM, correct DER, unrelated} x server certificate {valid, wrong host, expired, self-signed, unknown CA} x a second, tiny Ed25519 root family (DER shorter than 256 bytes and ending in a 0x0a octet) and a leaf that expired seconds before the run = 504 cells, the target spelled ipps:// or https:// (quick: one spelling per cell chosen by cell hash and seed; thorough: both) is executed completely on every run (two harness builds, one per TLS backend, since the backends cannot be compiled together). A cell must accept exactly when the caller opted out or supplied the correct root for a valid leaf; in every rejected cell the peer application must not have received a single decrypted byte. Thorough repeats the matrix against TLS 1.2-only and 1.3-only peers.",
     note="Certificates are generated with the openssl CLI at check time; trust decisions are those of the OpenSSL / rustls versions in this image."),
  "C18": dict(
     level="exploration", design="2/C18",
     technique="runtime monitoring of the real ipputil binary (built from /repo/util) as a child process against the scripted loopback peer: offline checker over the peer event log and the exit status",
-    text="ipputil print is run with generated command lines (file or stdin documents of 0 B to MiBs of arbitrary bytes, optional job and user names, options over every textual class incl. i32 boundaries, values containing '=' and empty values, -n on/off, extra headers, http and ipp targets) against scripted printers (state, reasons, IPP status of each reply, HTTP errors). The checker derives the expected exchange sequence, compares the submitted document byte-for-byte, the typing of every option with a reference text classifier, the name attributes, the extra headers and the exit status.",
-    note="Exit status after a not-ready refusal is recorded, not judged. 60 runs quick, 2000 thorough."),
+    text="ipputil print is run with generated command lines (file or stdin documents of 0 B to MiBs of arbitrary bytes, optional job and user names, options over every textual class incl. i32 boundaries, values containing '=' and empty values, -n on/off, extra headers, http and ipp targets) against scripted printers (state, reasons, IPP status of each reply, HTTP errors). A deterministic prefix of 140 scenarios runs every registered non-successful status on the state query and on Print-Job, HTTP errors on either exchange, every blocking reason alone and at each position of a set (also behind 'none'), stopped/idle/processing states, -n against blocked printers, and carries one of 40 tricky option values each (booleans with case/space variants, i32 boundaries and overflow, leading zeros, values containing '=' and ',', empty and blank values). The checker derives the expected exchange sequence, compares the submitted document byte-for-byte, the typing of every option with a reference text classifier, the name attributes, the extra headers and the exit status.",
+    note="Exit status after a not-ready refusal is recorded, not judged. 140 scenario + 60 random runs quick, 140 + 2000 thorough. Status codes 0x0003-0x00ff are not scripted (C16 leaves their class open)."),
 }
 
 REASON_TODO = "check not built yet in this revision of /verif (planned; see DESIGN.md section 2)"
